@@ -170,6 +170,9 @@ func (g *Gateway) subscriptionHandler(w http.ResponseWriter, r *http.Request) {
 				return
 			}
 
+			// an id can be started again, the previous operation with this id is closed then
+			subDict.Clean(subMsg.ID)
+
 			subDict[subMsg.ID] = subEntry
 
 			go subEntry.Listen(conn)
